@@ -143,6 +143,7 @@ def run(ctx):
                            "messages_that_had_to_be_redelivered": sum(r["nmust"] for r in results),
                            "messages_that_must_not_be_redelivered": sum(r["ndone"] for r in results),
                            "qos2_ids_probed": sum(r["nids"] for r in results),
+                           "first_resumes_with_receive_maximum_1": sum(r.get("small_window_resumes", 0) for r in results),
                            "exhaustive_over_recorded_journals": True}
     by_sig = {}
     for r in results:
